@@ -409,6 +409,12 @@ class HTTPChannel(wasyncore.dispatcher):
 
         if self.total_outbufs_len > self.adj.outbuf_high_watermark:
             with self.outbuf_lock:
+                if not self.connected:
+                    # the main thread closed the channel while we were
+                    # waiting for the lock: nothing to flush and nobody left
+                    # to wake us up
+                    return
+
                 _, exception = self._flush_exception(self._flush_some, do_close=False)
 
                 if exception:
